@@ -13,21 +13,32 @@ Definition pat_text (t : ptable) (p : N) : pystr :=
 Definition smap_of (l : list (pystr * renames)) (cn : pystr) : renames :=
   match alist_get l cn with Some m => m | None => [] end.
 
+Definition einfo_of (l : list (pystr * eopts)) : einfo_t :=
+  fun cn => match alist_get l cn with Some o => o | None => no_einfo cn end.
+
 Definition FUEL : nat := 12.
 
 (* ---------------------------------------------------------------- stream 1: to_schema *)
 (* model structure_to_schema vs the real one: equality of the JSON documents (objects order-free,
    numbers by value); "raises" on both sides when the class is outside the mappable fragment *)
-Record scase := { sc_env : env; sc_smap : list (pystr * renames); sc_pats : ptable; sc_cls : pystr;
-                  sc_obs : option (pyval * pyval) }.
+(* sc_pre: classes exported earlier into the SAME definitions dict (the documented way of exporting several
+   classes into one document); [] for an export into a fresh {} *)
+Record scase := { sc_env : env; sc_einfo : list (pystr * eopts); sc_smap : list (pystr * renames); sc_pats : ptable;
+                  sc_pre : list pystr; sc_cls : pystr; sc_obs : option (pyval * pyval) }.
+
+Definition pre_refs (c : scase) : list pystr :=
+  flat_map (fun nm => match find_class (sc_env c) nm with Some cd => class_refs cd | None => [] end) (sc_pre c).
 
 Definition smodel (c : scase) : option (pyval * pyval) :=
   match find_class (sc_env c) (sc_cls c) with
   | None => None
   | Some cd =>
-      if schema_mappable (sc_env c) FUEL cd then
-        let d := to_schema (sc_env c) (smap_of (sc_smap c)) FUEL cd in
-        Some (sch_json (pat_text (sc_pats c)) (fst d), defs_json (pat_text (sc_pats c)) (snd d))
+      let ei := einfo_of (sc_einfo c) in
+      if schema_mappable ei (sc_env c) FUEL cd then
+        let d := to_schema ei (sc_env c) (smap_of (sc_smap c)) FUEL cd in
+        Some (sch_json (pat_text (sc_pats c)) (fst d),
+              defs_json (pat_text (sc_pats c))
+                        (defs_from ei (sc_env c) (smap_of (sc_smap c)) FUEL (pre_refs c) ++ snd d))
       else None
   end.
 
@@ -42,12 +53,12 @@ Definition smismatch (c : scase) : bool :=
 Definition sclean (c : scase) : bool :=
   match find_class (sc_env c) (sc_cls c) with
   | None => false
-  | Some cd => schema_clean (sc_env c) (smap_of (sc_smap c)) FUEL cd
+  | Some cd => schema_clean (einfo_of (sc_einfo c)) (sc_env c) (smap_of (sc_smap c)) FUEL cd
   end.
 Definition swf (c : scase) : bool :=
   match find_class (sc_env c) (sc_cls c) with
   | None => false
-  | Some cd => wf_doc (fix_doc (to_schema (sc_env c) (smap_of (sc_smap c)) FUEL cd))
+  | Some cd => wf_doc (fix_doc (to_schema (einfo_of (sc_einfo c)) (sc_env c) (smap_of (sc_smap c)) FUEL cd))
   end.
 (* characterisation check: clean classes have well-formed exports (instance of the theorem) *)
 Definition sclean_not_wf (c : scase) : bool := sclean c && negb (swf c).
@@ -66,7 +77,7 @@ Record wcase := { wc_doc : schema * list (pystr * schema); wc_verdict : bool }.
 Definition wmismatch (c : wcase) : bool := negb (Bool.eqb (wf_doc (wc_doc c)) (wc_verdict c)).
 
 (* ---------------------------------------------------------------- stream 3: serializer *)
-Record rcase := { rc_tbl : table; rc_env : env; rc_smap : list (pystr * renames); rc_cls : pystr;
+Record rcase := { rc_tbl : table; rc_env : env; rc_einfo : list (pystr * eopts); rc_smap : list (pystr * renames); rc_cls : pystr;
                   rc_attrs : list (pystr * pyval); rc_obs : pyval }.
 
 (* JSON equality with arrays compared as multisets: the iteration order of a Python set (and hence of
@@ -105,7 +116,7 @@ Fixpoint jequ (a b : pyval) {struct a} : bool :=
 Definition rmodel (c : rcase) : option pyval :=
   match find_class (rc_env c) (rc_cls c) with
   | None => None
-  | Some cd => ser_top (tbl_match (rc_tbl c)) (rc_env c) (smap_of (rc_smap c)) FUEL cd (rc_attrs c)
+  | Some cd => ser_top (einfo_of (rc_einfo c)) (tbl_match (rc_tbl c)) (rc_env c) (smap_of (rc_smap c)) FUEL cd (rc_attrs c)
   end.
 Definition runmodelled (c : rcase) : bool := match rmodel c with None => true | Some _ => false end.
 Definition rmismatch (c : rcase) : bool :=
